@@ -257,7 +257,8 @@ def render(prog):
             x = f"3 * {opnd(s[2])}" + (" + 0.3" if s[3] else "")
             y = "0.3" if s[3] else "0"
             pos = f"({x}, {y})" if prog["mode2D"] else f"({x}, {y}, 0)"
-            out.append(f"{s[1]} = new Object at {pos}")
+            # (2D compatibility mode requires objects to be visible from the ego by default)
+            out.append(f"{s[1]} = new Object at {pos}, with requireVisible False")
     return "\n".join(out) + "\n"
 
 
